@@ -257,7 +257,12 @@ class Worker(multiprocessing.Process):
         #: The entry is withdrawn before the caller is woken up: once awake 
         #: it may send the same request again (a retransmission registers 
         #: under the same Hop-by-Hop), and that entry must not be removed.
-        self.pending_answers.pop(p_answer.msg.header.hop_by_hop, None)
+        #: Only the entry of this very waiter is withdrawn: a second copy of
+        #: the same answer may get here after the caller has registered 
+        #: again under the same Hop-by-Hop.
+        hop_by_hop = p_answer.msg.header.hop_by_hop
+        if self.pending_answers.get(hop_by_hop) is p_answer:
+            self.pending_answers.pop(hop_by_hop, None)
         p_answer.notify()
 
 
